@@ -301,6 +301,9 @@ class Check:
                 if f["id"] not in [k["id"] for k in self.known_hits]:
                     self.known_hits.append(f)
                 return False
+        if key in [v[0] for v in self.violations]:
+            self.dup_violations = getattr(self, "dup_violations", 0) + 1
+            return True
         path = self.save_replay(key, files or {"what.txt": desc})
         if len(self.violations) < 50:
             self.violations.append((key, desc, path))
